@@ -6,6 +6,23 @@ BASELINE = ("cd /repo && cargo nextest run --workspace --no-fail-fast --test-thr
             "|| cargo test --workspace --no-fail-fast --offline")
 
 CHECKS = {
+    "C09": dict(
+        category="exploration",
+        text=("Chains of the diagonal and low-rank NUTS and MCLMC presets are run on generated schedules (num_tune, window fractions, switch / "
+              "update frequencies, growth) and histories with rejected draws; a cfg-guarded probe reports after every draw how many draws the "
+              "estimator in use and its background copy hold and the window size. Invariants from the property text are checked with the "
+              "observed good/rejected flag of each draw: counts grow by exactly the flag, a switch happens iff the background holds a full "
+              "window and another window still fits before the final step-size window (both directions), the promoted estimator equals the "
+              "background (nothing older than two windows), windows grow geometrically and never shrink, everything is frozen in the final "
+              "window, updates respect the update frequency, and the step-size search is re-run exactly at the first transformation change. "
+              "Hook-free: the dual-averaging recursion is replayed from the reported step sizes to decide which acceptance statistic drove "
+              "each update; in the final window it must be the symmetric one."),
+        design_ref="DESIGN.md section 3, C09",
+        note=("Both next-window sizes (round(w*growth) and max(w+1, round(w*growth))) are accepted because documentation and code differ for "
+              "growth 1.0; a switch decision on which the two disagree is not judged. A declined low-rank update (numerical failure) counts "
+              "as an update attempt. The statistic replay needs dual averaging with jitter off."),
+        technique="proptest-generated schedules and histories, invariants over a per-draw probe, reference replay of dual averaging from public statistics",
+    ),
     "C08": dict(
         category="exploration",
         text=("The real diagonal and low-rank estimators (reached through cfg-guarded hooks) are fed generated windows. Exactness: for "
